@@ -35,9 +35,9 @@ OPS = ['bootstrap_sample', 'bootstrap_sample_rdm', 'bootstrap_sample_pattern', '
 def gen_plan(rng, tier, index):
     big = tier == 'thorough'
     if rng.chance(0.05):
-        spec = gen.gen_rdms_spec(rng, n_rdm=(9, 20), n_cond=(17, 26))      # beyond the sizes where sorts / look-ups switch algorithms
+        spec = gen.gen_rdms_spec(rng, n_rdm=(9, 20), n_cond=(17, 26), dtypes=True)      # beyond the sizes where sorts / look-ups switch algorithms
     else:
-        spec = gen.gen_rdms_spec(rng, n_rdm=(1, 8 if big else 6), n_cond=(3, 11 if big else 9))
+        spec = gen.gen_rdms_spec(rng, n_rdm=(1, 8 if big else 6), n_cond=(3, 11 if big else 9), dtypes=True)
     n_ops = rng.randint(1, 8 if big else 6)
     ops = []
     for _ in range(n_ops):
@@ -170,8 +170,8 @@ def _check_axis_request(ctx, op, axis, served, distinct, idx):
 
 
 def _check_sample(ctx, op, sample, src_state, tabs, exp_r, exp_c):
-    rdm_tab, pat_tab, nan_cells = tabs
-    probs = check_assoc(sample, rdm_tab, pat_tab, nan_cells)
+    rdm_tab, pat_tab, nan_cells = tabs[:3]
+    probs = check_assoc(sample, rdm_tab, pat_tab, nan_cells, value_fn=tabs[3] if len(tabs) > 3 else gen.enc)
     for clause, msg in probs[:1]:
         ctx.violation('resample_ref.' + clause, f'{op}:{clause}', f'{op}: {msg}')
     ru, cu = uid_seqs(sample)
@@ -209,9 +209,11 @@ def execute(plan, ctx):
     ctx.components.update(['real:rsatoolbox.inference.bootstrap', 'real:rsatoolbox.rdm.RDMs', 'real:numpy',
                            'stub:numpy.random (global RNG: values served by the simulator)'])
     spec = plan['spec']
+    vfn = gen.value_fn_of(spec)
     tabs = gen.source_tables(spec)
     objs = [gen.build_rdms(spec)]
-    probs = check_assoc(objs[0], *tabs)
+    probs = check_assoc(objs[0], *tabs, value_fn=vfn)
+    tabs = tuple(tabs) + (vfn,)
     if probs:
         raise HarnessError(f'generator produced an inconsistent source: {probs[:2]}')
     seam = RngSeam(ctx, plan['serve_seed'], plan.get('faults'), script=plan.get('draw_script'),
@@ -243,7 +245,7 @@ def execute(plan, ctx):
                 except Exception as e:
                     ctx.probe('inplace_op_raised')
                     continue
-                probs = check_assoc(src, *tabs)
+                probs = check_assoc(src, *tabs[:3], value_fn=vfn)
                 if probs:
                     ctx.probe('source_inconsistent_after_inplace_op')     # C10's business; do not resample from it
                     objs = [x for x in objs if x is not src] or [gen.build_rdms(spec)]
